@@ -550,6 +550,27 @@ static __int128 div_round(__int128 a, __int128 b) {
     return -((-a + b / 2) / b);
 }
 
+/* the exact time of a sample id under the piecewise-linear map through the anchors (x ids, y times): interpolation inside,
+ * extrapolation from the nearest segment outside, the sample rate when there is one anchor only */
+static __int128 utc_exact(size_t n, const int64_t *x, const int64_t *y, uint32_t rate, int64_t sid, long double *kterm, int *anchor_hit) {
+    __int128 exact;
+    *anchor_hit = 0;
+    if (n == 1) {
+        __int128 num = (__int128) (sid - x[0]) * JLS_TIME_SECOND;
+        exact = y[0] + div_round(num, rate);
+        *kterm = fabsl((long double) (sid - x[0]) * JLS_TIME_SECOND / rate);
+        *anchor_hit = sid == x[0];
+    } else {
+        size_t lo = 0;
+        if (sid <= x[0]) lo = 0; else if (sid >= x[n - 1]) lo = n - 2; else { for (size_t i = 0; i + 1 < n; ++i) if (sid >= x[i] && sid <= x[i + 1]) { lo = i; break; } }
+        __int128 num = (__int128) (sid - x[lo]) * (y[lo + 1] - y[lo]);
+        exact = y[lo] + div_round(num, x[lo + 1] - x[lo]);
+        *kterm = fabsl((long double) (sid - x[lo]) * (long double) (y[lo + 1] - y[lo]) / (long double) (x[lo + 1] - x[lo]));
+        for (size_t i = 0; i < n; ++i) if (x[i] == sid) { *anchor_hit = 1; exact = y[i]; *kterm = 0; }
+    }
+    return exact;
+}
+
 int verify_utc(struct jls_rd_s *rd, const model_t *m, int sig, const verify_opts_t *o) {
     const msig_t *s = &m->sig[sig];
     if (!s->defined || !s->fsr) return 0;
@@ -632,22 +653,9 @@ int verify_utc(struct jls_rd_s *rd, const model_t *m, int sig, const verify_opts
                 snprintf(wj, sizeof(wj), "{\"signal\":%d,\"anchors\":%zu,\"rate\":%u,\"sample_id\":%lld,\"x0\":%lld,\"xN\":%lld}", sig, n, def.sample_rate, (long long) sid, (long long) x[0], (long long) x[n - 1]);
                 if (rc) { snprintf(key, sizeof(key), "conv|error|rc=%d|%s", rc, fk(o)); v_violation("C12", key, wj, "sample_id_to_timestamp returned %d", rc); bad = 1; break; }
                 /* exact expectation */
-                __int128 exact; long double kterm;
-                int anchor_hit = 0; int flat = 0;
-                if (n == 1) {
-                    __int128 num = (__int128) (sid - x[0]) * JLS_TIME_SECOND;
-                    exact = y[0] + div_round(num, def.sample_rate);
-                    kterm = fabsl((long double) (sid - x[0]) * JLS_TIME_SECOND / def.sample_rate);
-                    anchor_hit = sid == x[0];
-                } else {
-                    size_t lo = 0;
-                    if (sid <= x[0]) lo = 0; else if (sid >= x[n - 1]) lo = n - 2; else { for (size_t i = 0; i + 1 < n; ++i) if (sid >= x[i] && sid <= x[i + 1]) { lo = i; break; } }
-                    __int128 num = (__int128) (sid - x[lo]) * (y[lo + 1] - y[lo]);
-                    exact = y[lo] + div_round(num, x[lo + 1] - x[lo]);
-                    kterm = fabsl((long double) (sid - x[lo]) * (long double) (y[lo + 1] - y[lo]) / (long double) (x[lo + 1] - x[lo]));
-                    for (size_t i = 0; i < n; ++i) if (x[i] == sid) { anchor_hit = 1; exact = y[i]; kterm = 0; }
-                    flat = y[lo + 1] == y[lo];
-                }
+                long double kterm;
+                int anchor_hit = 0;
+                __int128 exact = utc_exact(n, x, y, def.sample_rate, sid, &kterm, &anchor_hit);
                 long double tol = anchor_hit ? 0 : 1 + kterm * ldexpl(1.0L, -50);
                 if (n == 1) tol = anchor_hit ? 0 : 1.5L + kterm * ldexpl(1.0L, -50);
                 long double err = fabsl((long double) ((__int128) ts - exact));
@@ -671,12 +679,18 @@ int verify_utc(struct jls_rd_s *rd, const model_t *m, int sig, const verify_opts
                 rc = jls_rd_timestamp_to_sample_id(rd, (uint16_t) sig, ts, &back);
                 v_api("");
                 if (rc) { snprintf(key, sizeof(key), "inv|error|rc=%d|%s", rc, fk(o)); v_violation("C12", key, wj, "timestamp_to_sample_id returned %d", rc); bad = 1; break; }
-                /* well-posed only where time strictly increases by at least one tick per sample and anchors have distinct times */
-                int wellposed = !flat;
-                if (n > 1) {
-                    for (size_t i = 0; i + 1 < n; ++i) if (y[i + 1] - y[i] < x[i + 1] - x[i]) wellposed = 0;
-                } else if (def.sample_rate > JLS_TIME_SECOND) wellposed = 0;
-                if (wellposed && llabs(back - sid) > 1) {
+                /* where the clock stalls (or runs slower than one tick per sample) several ids share the time ts: any id whose exact
+                 * time is ts, to within one sample, is a right answer; everywhere else that is the original id alone */
+                int inv_ok = llabs(back - sid) <= 1;
+                for (int db = -1; db <= 1 && !inv_ok; ++db) {
+                    if ((db < 0 && back == INT64_MIN) || (db > 0 && back == INT64_MAX)) continue;
+                    /* far outside the anchors the exact time of the returned id is not representable: never a right answer */
+                    if (back + db < x[0] - (int64_t) 1e15 || back + db > x[n - 1] + (int64_t) 1e15) continue;
+                    long double kt2; int ah2;
+                    __int128 tb = utc_exact(n, x, y, def.sample_rate, back + db, &kt2, &ah2);
+                    if (fabsl((long double) (tb - (__int128) ts)) <= 1.5L + kt2 * ldexpl(1.0L, -50)) inv_ok = 1;
+                }
+                if (!inv_ok) {
                     snprintf(key, sizeof(key), "inv|off|%s", fk(o));
                     v_violation("C12", key, wj, "id %lld -> time %lld -> id %lld", (long long) sid, (long long) ts, (long long) back);
                     bad = 1; break;
